@@ -7,20 +7,20 @@ sys.path.insert(0, os.path.dirname(os.path.dirname(os.path.abspath(__file__))))
 MODULE = "own"
 ADAPTER = "own_impl.py"
 
-RO_PAIR = ["cc", "sim", "jac", "cont", "iu", "and", "or", "fds", "search", "searchc", "prefetch", "gather", "gatherm", "gatherm",
+RO_PAIR = ["eq2", "inflate", "fdn", "cc", "sim", "jac", "cont", "iu", "and", "or", "fds", "search", "searchc", "prefetch", "gather", "gatherm", "gatherm",
            "compare", "comparem", "manifest", "save", "savem", "ani", "ang", "sigcopy", "sigcopym", "selview"]
-RO_ONE = ["md5", "hashes", "pickle", "save", "manifest", "sigcopy", "sigcopym", "selview"]
-MUTATORS = ["add", "addab", "addmany", "rm", "clear", "merge", "setab", "settrack"]
+RO_ONE = ["seqhashes", "getters", "hashesset", "cac", "md5", "hashes", "pickle", "save", "manifest", "sigcopy", "sigcopym", "selview"]
+MUTATORS = ["add", "addab", "addmany", "rm", "clear", "merge", "setab", "settrack", "addseq", "addprot"]
 
 
 NAMES = ["a", "b", "c", "d", "e", "-"]
 FNAMES = ["fa", "fb", "-"]
 SIG_MUT = ["sname", "sfile", "ssetmh", "saddseq", "saddprot"]
 SIG_COPY = ["stomut", "stofrozen", "scopy", "spickle", "supdflat", "supdname", "sgatherinit"]
-SIG_RO = ["md5", "eq", "sim", "save", "pickle", "copies", "mhmut", "compare", "insertinto", "insertinto"]
-VIEW_RO_Q = ["search", "searchc", "prefetch", "best", "gather", "gatheri", "cgather", "interleave"]
+SIG_RO = ["md5", "eq", "sim", "save", "pickle", "copies", "mhmut", "compare", "insertinto", "insertinto", "anis"]
+VIEW_RO_Q = ["search", "searchc", "prefetch", "best", "gather", "gatheri", "cgather", "searchab", "results", "results", "interleave"]
 VIEW_RO_0 = ["sigs", "locs", "manifest", "picklist"]
-SAVE_ANY = ["saveto0", "saveto1", "saveto2", "saveto3"]
+SAVE_ANY = ["saveto0", "saveto1", "saveto2", "saveto3", "savesig"]       # (`save` is refused by most kinds: NotImplementedError)
 SAVE_BY_KIND = {"vsbt": ["save", "save", "savefs", "savefs"], "vsbtload": ["save", "savefs"], "vlinear": ["savesig", "savesig"],
                 "vlca": ["lcasave0", "lcasave1"], "vlcaload0": ["lcasave0", "lcasave1"],
                 "vzip1": ["mfsave0", "mfsave1"], "vmulti": ["mfsave0", "mfsave1"], "vstandalone": ["mfsave0", "mfsave1"],
@@ -177,7 +177,9 @@ def gen_obj_case(rng, flavour):
             return f"sro {rng.choice(SIG_RO)} {S()}" + (f" {S()}" if rng.random() < 0.7 else "")
         # the sketch layer underneath: mutate (or try to) a sketch a signature was built from / handed out
         h = rng.choice(mhs)
-        op = rng.choice(["add", "addmany", "clear", "rm", "tomut", "merge"])
+        op = rng.choice(["add", "addmany", "clear", "rm", "tomut", "merge", "addseq"])
+        if op == "addseq":
+            return f"addseq {h} {rng.randint(0, 1)} {_seq(rng)}"
         if op == "add":
             return f"add {h} {hv()}"
         if op == "addmany":
@@ -291,13 +293,14 @@ def gen_obj_case(rng, flavour):
             if mfv and rng.random() < 0.22:
                 # read-only calls on the manifests of two views (a + b aliases nothing, membership stays what it was ...)
                 a_, b_ = rng.choice(mfv), rng.choice(mfv)
-                return f"vmf {rng.choice(['add', 'add', 'add', 'eq', 'in', 'select', 'filter', 'misc'])} {a_} {b_}" + \
+                return f"vmf {rng.choice(['add', 'add', 'add', 'eq', 'in', 'select', 'filter', 'misc', 'iadd'])} {a_} {b_}" + \
                     (f" {S()} {S()}" if rng.random() < 0.5 else "")
             sb = [x for x, kk in views if kk in ("vsbt", "vsbtload")]
             if sb and rng.random() < 0.08:
                 return f"vmf combine {rng.choice([x for x, _ in views])} {rng.choice(sb)} {S()}"
-            if mfv and rng.random() < 0.08:
-                return f"vmf {rng.choice(['wrap', 'getmf'])} {rng.choice(mfv)} {rng.choice([x for x, _ in views])}"
+            if rng.random() < 0.1:
+                recv = rng.choice(mfv) if (mfv and rng.random() < 0.6) else rng.choice([x for x, _ in views])
+                return f"vmf {rng.choice(['wrap', 'getmf', 'getmf', 'helpers', 'helpers'])} {recv} {rng.choice([x for x, _ in views])}"
             if rr < 0.04:
                 return f"sro insertinto {S()}" + (f" {S()}" if rng.random() < 0.5 else "")
             if rr < 0.3:
@@ -362,9 +365,13 @@ def gen_mh_case(rng, flavour):
     pool = sorted({rng.randint(0, M) for _ in range(rng.randint(3, 10))} | {0, M})
     hv = lambda: rng.choice(pool)
     nh = rng.randint(2, 3)
+    use_num = rng.random() < 0.12          # `num` sketches (flatten_and_downsample_num, downsample(num=), refusals of scaled-only calls)
     for h in range(nh):
         tr = rng.random() < 0.6
-        lines.append(f"new {h} 0 {scaled} {int(tr)}")
+        if use_num:
+            lines.append(f"new {h} {rng.choice([3, 3, 5])} 0 {int(tr)}")
+        else:
+            lines.append(f"new {h} 0 {scaled} {int(tr)}")
         k = rng.randint(0, 8)
         if k:
             lines.append(f"addmany {h} " + " ".join(str(hv()) for _ in range(k)))
@@ -410,6 +417,10 @@ def gen_mh_case(rng, flavour):
             elif op == "setab":
                 keys = rng.sample(pool, min(len(pool), rng.randint(0, 3)))
                 lines.append(f"setab {h} {rng.randint(0, 1)} " + " ".join(f"{k}:{rng.choice([0, 1, 3])}" for k in keys))
+            elif op == "addseq":
+                lines.append(f"addseq {h} {rng.randint(0, 1)} {_seq(rng) if rng.random() < 0.7 else _seq(rng)[:21].ljust(21, 'A')}")
+            elif op == "addprot":
+                lines.append(f"addprot {h} {_seq(rng)}")
             else:
                 lines.append(f"settrack {h} {rng.randint(0, 1)}")
     return lines
@@ -419,7 +430,7 @@ MH_RESULT = {"tomut", "tofrozen", "copy", "flat", "down", "sigmh", "plus", "inte
 SIG_RESULT = {"snew", "stomut", "stofrozen", "scopy", "spickle", "supdflat", "supdname", "sgatherinit", "vget"}
 VIEW_RESULT = {"vlinear", "vlazy", "vzip", "vmulti", "vstandalone", "vsbt", "vlca", "vsel", "vselpick",
                "vsbtload", "vsqlite", "vlcaload", "vzipg", "vmultiof", "vfrom", "vstandof", "vmpath"}
-MH_RECV = {"add", "addab", "addmany", "rm", "clear", "merge", "setab", "settrack", "intofrozen"}
+MH_RECV = {"add", "addab", "addmany", "rm", "clear", "merge", "setab", "settrack", "intofrozen", "addseq", "addprot"}
 SIG_RECV = {"ssetmh", "sname", "sfile", "saddseq", "saddprot", "ssetstate", "sintofrozen"}
 SIG_FRESH = {"stomut", "spickle", "supdflat", "supdname", "sgatherinit"}
 INPLACE = {"sbt", "lca", "sbtdisk"}
@@ -432,8 +443,11 @@ def parse(obs):
     if " | " not in obs and not obs.endswith(" |"):
         return obs, None
     res, _, rest = obs.partition(" | ")
-    tab = {"m": {}, "s": {}, "v": {}}
+    tab = {"m": {}, "s": {}, "v": {}, "A": "ok", "K": "ok"}
     for item in rest.split():
+        if item.startswith("A=") or item.startswith("K="):
+            tab[item[0]] = item[2:]
+            continue
         hc, _, cell = item.partition("=")
         h, _, cls = hc.partition("@")
         if h.startswith("s"):
@@ -490,6 +504,14 @@ def oracle(case, impl):
         o = w[0]
         if prev is None:
             prev = {"m": {}, "s": {}, "v": {}}
+        if tab["A"] != "ok" and (prev.get("A", "ok") == "ok"):
+            what = tab["A"].split(":")[0]
+            bad.append((idx, "C15:views-disagree:" + what,
+                        f"after `{op}` two ways of reading the same object disagree ({tab['A']}): len vs iteration vs .hashes / "
+                        "manifest row vs signature / signatures() vs signatures_with_location()"))
+        if tab["K"] != "ok" and (prev.get("K", "ok") == "ok"):
+            bad.append((idx, "C15:kept-result-changed:" + tab["K"].split(":")[1] if ":" in tab["K"] else "C15:kept-result-changed",
+                        f"`{op}` changed a result object an EARLIER call of this case returned ({tab['K']})"))
         if o in ("ro", "sro", "vro", "vmf"):
             if res.startswith("err RepeatDiffers"):
                 bad.append((idx, f"C15:repeat-differs:{o}:" + w[1] if o != "ro" else "C15:repeat-differs:" + w[1],
